@@ -232,3 +232,32 @@ def replay(name, model):
             if msgs:
                 return "; ".join(msgs[:3])
     return None
+
+
+def unit_sequences(tier="quick", seed=0):
+    """history independence of the gate constructors (native): gates built one after another in one process - angles that differ
+    slightly, repeated constructions - each still equals its own textbook matrix"""
+    import numpy as np
+    from lightworks import qubit
+    fails, n = [], 0
+    env = Env("native")
+    angles = [np.pi / 4, 0.785, 0.7853, 0.0, 4e-4, 1.0, 1.0004, -2.5, -2.5003]
+    for nm in ("Rx", "Ry", "Rz", "P"):
+        for th in angles + angles[::-1]:
+            n += 1
+            circ = getattr(qubit, nm)(th)
+            c2, s2, c1, s1 = np.cos(th / 2), np.sin(th / 2), np.cos(th), np.sin(th)
+            G = np.array(ref_matrices(env, c2, s2, c1, s1)[nm], dtype=complex)
+            M, _ = gate_matrix(env, circ, 1)
+            Mm = np.array([[M[((o,), (i,))] for i in (0, 1)] for o in (0, 1)], dtype=complex)
+            k = np.argmax(np.abs(G))
+            sc = Mm.flat[k] / G.flat[k]
+            if abs(abs(sc) - 1) > 1e-9 or np.abs(Mm - sc * G).max() > 1e-9:
+                fails.append((dict(gate=nm, theta=float(th)), f"gate built after other gates deviates from its matrix by {np.abs(Mm - sc * G).max():.2e}"))
+    o = dict(name="lightworks/qubit/gates/single_qubit_gates.py:rotation-gates#bnd.history-independent", kind="bnd", cases=n, result="bounded-fail" if fails else "bounded-pass",
+             backend="native floats", ms=0, note="rotation gates constructed in sequence (close and repeated angles) each implement their own angle")
+    if fails:
+        o["failing_cases"] = [str(f[0]) for f in fails]
+        o["model"] = dict(case=fails[0][0], observed=fails[0][1], n_failing=len(fails))
+        o["replayed"] = f"{len(fails)} of {n} constructions fail; first {fails[0][0]}: {fails[0][1]}"
+    return dict(status="ok", obligations=[o], summary=f"{n} gate constructions in sequence")
